@@ -54,6 +54,9 @@ func TestReplay(t *testing.T) {
 		}
 		return
 	}
+	if exp, _ := doc["expect"].(map[string]interface{}); exp != nil && exp["kind"] == "observe" {
+		vrt.Observe = true
+	}
 	time.Sleep(20 * time.Millisecond)
 	base := runtime.NumGoroutine()
 	done := make(chan string, 1)
@@ -92,6 +95,9 @@ func TestReplay(t *testing.T) {
 	}
 	for _, n := range vrt.Notes {
 		fmt.Printf("VRT-NOTE %s\n", n)
+	}
+	for _, o := range vrt.Obs {
+		fmt.Printf("VRT-OBS %s\n", o)
 	}
 	fmt.Printf("VRT-PASSED %d\n", vrt.Passed)
 }
